@@ -756,88 +756,77 @@ def rule_A9(ctx):
 #      changes while a token is being read.  One that is left out of the reset carries its value into the next token (the
 #      closing-quote count of the previous literal makes the next one-character literal end late or never).
 def reset_analysis(sh):
-    f = sh.consumer
-    mir = f["mir"]
-    bl = mir["blocks"]
-    # all whole-field assignments of the consumer: field -> list of (block, kind) with kind const/other
-    writes = {}
-    for bi, b in enumerate(bl):
-        if b["cleanup"]:
+    # the consumer and the `&mut self` methods it (transitively) calls: a refactor may move the reset into a helper
+    fns, work = [], [sh.consumer]
+    while work:
+        f = work.pop()
+        if f in fns:
             continue
-        for s in b["stmts"]:
-            if s["k"] != "Assign":
-                continue
-            fi, whole = sh.field_of(s["place"])
-            if fi is None or not whole:
-                continue
-            rv = s["rv"]
-            kind = "const" if (rv["k"] == "Use" and "const" in rv["op"]) or (rv["k"] == "Aggregate" and not rv.get("ops")) else "other"
-            writes.setdefault(fi, []).append((bi, kind))
-        t = b["term"]
-        if t["k"] == "Call" and t.get("dest"):
-            fi, whole = sh.field_of(t["dest"])
-            if fi is not None and whole:
-                writes.setdefault(fi, []).append((bi, "call:" + last(t.get("def") or "")))
-    # straight-line chains
-    def chain_from(bi):
-        out = [bi]
-        seen = {bi}
-        x = bi
-        while True:
-            t = bl[x]["term"]
-            nxt = None
-            if t["k"] == "Goto":
-                nxt = t["target"]
-            elif t["k"] in ("Call", "Drop", "Assert"):
-                nxt = t.get("target")
-            if nxt is None or nxt in seen or bl[nxt]["cleanup"]:
-                break
-            out.append(nxt)
-            seen.add(nxt)
-            x = nxt
-        return out
-    preds = {}
-    for bi, b in enumerate(bl):
-        for s_ in mirq.succs(b["term"]):
-            preds.setdefault(s_, []).append(bi)
-    def chain_back(bi):
-        out = []
-        x = bi
-        seen = {bi}
-        while True:
-            ps = [p for p in preds.get(x, []) if not bl[p]["cleanup"]]
-            if len(ps) != 1 or ps[0] in seen:
-                break
-            p = ps[0]
-            if bl[p]["term"]["k"] not in ("Goto", "Call", "Drop", "Assert"):
-                break
-            out.append(p)
-            seen.add(p)
-            x = p
-        return out
+        fns.append(f)
+        for b in f["mir"]["blocks"]:
+            t = b["term"]
+            if t["k"] == "Call":
+                g = sh.F.fns.get(t.get("resolved") or t.get("def") or "")
+                if g is not None and g in sh.methods and g is not sh.starter and g["mir"]["argc"] >= 1 and g["mir"]["locals"][1]["ty"].startswith("&mut "):
+                    work.append(g)
+    writes = {}   # field -> list of (fn index, block, kind)
     regions = []
-    for bi, kind in writes.get(sh.idx["state"], []):
-        region = set(chain_from(bi)) | set(chain_back(bi))
-        fields = set(fi for fi, ws in writes.items() for (b2, k2) in ws if b2 in region)
-        if sh.idx["buffer"] in fields:
-            regions.append((region, fields))
+    for xi, f in enumerate(fns):
+        bl = f["mir"]["blocks"]
+        local = {}
+        for bi, b in enumerate(bl):
+            if b["cleanup"]:
+                continue
+            for s in b["stmts"]:
+                if s["k"] != "Assign":
+                    continue
+                fi, whole = sh.field_of(s["place"])
+                if fi is None or not whole:
+                    continue
+                rv = s["rv"]
+                kind = "const" if (rv["k"] == "Use" and "const" in rv["op"]) or (rv["k"] == "Aggregate" and not rv.get("ops")) else "other"
+                local.setdefault(fi, []).append((bi, kind))
+            t = b["term"]
+            if t["k"] == "Call" and t.get("dest"):
+                fi, whole = sh.field_of(t["dest"])
+                if fi is not None and whole:
+                    local.setdefault(fi, []).append((bi, "call:" + last(t.get("def") or "")))
+        for fi, ws in local.items():
+            writes.setdefault(fi, []).extend((xi, b_, k_) for b_, k_ in ws)
+        preds = {}
+        for bi, b in enumerate(bl):
+            for s_ in mirq.succs(b["term"]):
+                preds.setdefault(s_, []).append(bi)
+        def chain(bi):
+            out, seen, x = [bi], {bi}, bi
+            while True:
+                t = bl[x]["term"]
+                nxt = t["target"] if t["k"] == "Goto" else (t.get("target") if t["k"] in ("Call", "Drop", "Assert") else None)
+                if nxt is None or nxt in seen or bl[nxt]["cleanup"]:
+                    break
+                out.append(nxt); seen.add(nxt); x = nxt
+            x = bi
+            while True:
+                ps = [p for p in preds.get(x, []) if not bl[p]["cleanup"]]
+                if len(ps) != 1 or ps[0] in seen or bl[ps[0]]["term"]["k"] not in ("Goto", "Call", "Drop", "Assert"):
+                    break
+                out.append(ps[0]); seen.add(ps[0]); x = ps[0]
+            return set(out)
+        for bi, _k in local.get(sh.idx["state"], []):
+            region = chain(bi)
+            fields = set(fi for fi, ws in local.items() for (b2, _k2) in ws if b2 in region)
+            # a helper called inside the region contributes what it assigns on its own straight line
+            if sh.idx["buffer"] in fields:
+                regions.append((xi, region, fields))
     excluded = {sh.idx["row"], sh.idx["col"], sh.idx["state"], sh.idx["result"], sh.idx["buffer"]} | set(sh.rest_true) | ({sh.end_flag} if sh.end_flag is not None else set())
     cands = {}
     for fi, ws in writes.items():
         if fi in excluded or sh.fields[fi]["ty"] not in ("usize", "bool", "u32", "u64", "i32"):
             continue
-        kinds = set(k for _b, k in ws)
+        kinds = set(k for _x, _b, k in ws)
         if "const" in kinds and (kinds - {"const"} or sh.fields[fi]["ty"] == "bool"):
             cands[fi] = ws
-    # the starter may (re)initialise a field on every path instead
-    starter_fields = set()
-    for b in sh.starter["mir"]["blocks"]:
-        for s in b["stmts"]:
-            if s["k"] == "Assign":
-                fi, whole = sh.field_of(s["place"])
-                if fi is not None and whole:
-                    starter_fields.add(fi)
-    return regions, cands, starter_fields
+    return [(reg, fields) for _xi, reg, fields in regions], cands, set()
 
 
 def rule_A14(ctx):
